@@ -10,6 +10,8 @@ The sets below are written from RFC 3986 section 2.2/2.3/3.x -- not from the cod
 """
 from string import ascii_letters, digits
 
+from .prims import all_chars_in
+
 UNRESERVED = ascii_letters + digits + "-._~"
 SUB_DELIMS = "!$&'()*+,;="
 UPPER_HEX = "0123456789ABCDEF"
@@ -189,6 +191,41 @@ def q_step_cp(quoter, S, p):
     if ch < 128:
         return q_step(quoter, S, p)
     return utf8_unit(ch), 1
+
+
+def skippable(quoter, ch):
+    """a character that is its own canonical unit in every context: an ASCII literal of the
+    component other than '%' (and, in a query, other than the space)"""
+    lit_set, protected, qs, requote = config_of(quoter)
+    return ch < 128 and chr(ch) in lit_set and ch != 37 and not (qs and ch == 32)
+
+
+def skippable_codes(name):
+    """the same set, enumerated (used by the engine-level postcondition of the fast path)"""
+    lit_set = literal_set(name)
+    return sorted(ord(c) for c in lit_set if ord(c) < 128 and c != "%" and not (name in QS and c == " "))
+
+
+def skippable_text(quoter):
+    return "".join(chr(c) for c in skippable_codes(INSTANCE_NAME[id(quoter)]))
+
+
+def skippable_from(quoter, S, k):
+    """every character of S from index k on is skippable (loop invariant of the fast-path scan)"""
+    return all_chars_in(S[k:], skippable_text(quoter))
+
+
+def lemma_skippable_is_fixed(quoter, B, p):
+    """C01/C04/C05 (fast path of the compiled quoter): text made of skippable characters only is
+    left alone by the specification too -- each of them is a token of its own whose unit is itself"""
+    if not skippable(quoter, code_at(B, p)):
+        return True
+    unit, k = q_step(quoter, B, p)
+    return k == 1 and unit_is_input(unit, B, p, k)
+
+
+def in_range(quoter, B, p):
+    return 0 <= p and p < len(B)
 
 
 def do_quote_requires(self, val, length, kind, data, writer):
